@@ -26,12 +26,41 @@ func vfUniString(name string, n int) string {
 	return s
 }
 
+// vfWideLines builds a string of up to n atoms over {x, wide CJK, LF}: long enough for lines whose
+// rune counts and display widths order differently.
+func vfWideLines(name string, n int) string {
+	k := vfChoice(name+".n", n+1)
+	s := ""
+	for i := 0; i < k; i++ {
+		switch vfChoice(vfName(name+".a", i), 3) {
+		case 0:
+			s += "x"
+		case 1:
+			s += "世"
+		case 2:
+			s += "\n"
+		}
+	}
+	return s
+}
+
 func VerifC18_metrics() {
 	n := 3
 	if vfTier() == 1 {
 		n = 5
 	}
-	s := vfUniString("s", n)
+	verifC18Metrics(vfUniString("s", n))
+}
+
+func VerifC18_widelines() {
+	n := 6
+	if vfTier() == 1 {
+		n = 8
+	}
+	verifC18Metrics(vfWideLines("w", n))
+}
+
+func verifC18Metrics(s string) {
 	lines := Lines(s)
 	joined := strings.Join(lines, "\n")
 	vfAssert(vfOr(joined == s, joined+"\n" == s), "lines-lose-only-breaks-and-one-trailing-newline")
